@@ -31,7 +31,7 @@ def gen_run(rng, solver=None, stop=None, **over):
                'overwrite': str(rng.randint(0, 1)), 'updcand': str(rng.randint(0, 1)),
                'recomp': str(rng.randint(0, 1)), 'eager': str(rng.randint(0, 1)),
                'force': str(rng.choice([0, 0, 1])), 'mem': str(rng.choice([1, 2, 5])),
-               'advseed': str(rng.randint(1, 1000)), 'L0': f2h(rng.choice([0.0, 0.0, 1.0, 64.0])),
+               'advseed': str(rng.randint(1, 1000)), 'L0': f2h(rng.choice([0.0, 0.0, 1.0, 64.0, 2.0 ** -8])),
                'stopat': '0', 'stopcb': '0', 'nanat': str(rng.choice([0] * 9 + [rng.randint(1, 12)])),
                'oot': str(rng.choice([0] * 19 + [1])), 'wmscratch': str(rng.choice([0, 0, 1]))})
     if stop is None:
@@ -49,9 +49,11 @@ def gen_run(rng, solver=None, stop=None, **over):
 def sweep_ops(rng, exe, n_problems, solver='panoc'):
     """Exhaustive stop injection: for fixed problems, `stop()` at every event index."""
     ops = []
-    for _ in range(n_problems):
+    for i in range(n_problems):
+        # the first base run has many initial step-size backtracks (stop() lands inside that loop)
+        init = S.init_sweep_overrides(rng) if i == 0 else {}
         base = gen_run(rng, solver=solver, stop=False, maxiter=rng.choice([2, 3, 4]), nanat=0, oot=0,
-                       trace=0)
+                       trace=0, **init)
         out, rc, err = C.run_lines(exe, [base.line()])
         if rc != 0 or not out:
             continue
